@@ -311,9 +311,14 @@ pub struct WorkerArgs {
     pub only_fixed_from: Option<u64>,
 }
 
+/// The journal holds only the case about to be executed (overwritten in place), which is all the
+/// supervisor needs to attribute a worker death.
 fn journal_write(j: &mut std::fs::File, idx: u64, case: &Value) {
+    use std::io::{Seek, SeekFrom};
     let line = format!("{}\t{}\n", idx, case);
+    let _ = j.seek(SeekFrom::Start(0));
     let _ = j.write_all(line.as_bytes());
+    let _ = j.set_len(line.len() as u64);
 }
 
 fn execute_guarded(prop: &dyn Property, case: &Value, ctx: &mut Ctx) -> Exec {
@@ -343,7 +348,8 @@ pub fn run_worker(prop: &dyn Property, a: WorkerArgs) -> i32 {
     let mut acc = Acc::default();
     let mut journal = std::fs::OpenOptions::new()
         .create(true)
-        .append(true)
+        .write(true)
+        .truncate(true)
         .open(&a.journal)
         .expect("journal");
     let want_samples = if a.shard == 0 { 4 } else { 1 };
